@@ -8,7 +8,11 @@ Workload : generated FlowIR documents in which every layer (default/platform x g
            Plus update histories (gen/c04_updates.py): ONE live object is queried, one variable of one
            layer is changed through the public setters (every platform section, also the default
            one while another platform is queried) or the user variable file is applied to the
-           already queried object, and it is queried again.
+           already queried object, and it is queried again.  Between the queries the histories also
+           run operations that only READ the description (instance() / replicate() with the loader's
+           flag combinations, raw(), get_component_configuration() with other flags / components /
+           platforms, get_component_variables()); documents carry stage blueprints with variable
+           references and a dict-valued option (kubernetes.podSpec) in every layer.
 Observe  : FlowIRConcrete.get_component_configuration(c, raw=False, include_default=True, platform=P)
            (through FlowIRExperimentConfiguration when a user variable file is part of the case).
 Oracle   : ref/c04_layering.py, an independent resolver of the two lattices in the statement.
@@ -333,8 +337,17 @@ def class_keys(case, status):
 def describe_step(step):
     if step["op"] == "user":
         return "applying the user variable file (FlowIRExperimentConfiguration(concrete=<the queried object>))"
-    k, n, v = step["kind"], step["name"], step["value"]
     plat = repr(step.get("platform")) if step.get("explicit", True) else "None"
+    if step["op"] == "ro":
+        flags = "".join(", %s=%r" % kv for kv in sorted((step.get("flags") or {}).items()))
+        if step["call"] == "raw":
+            return "raw()"
+        if step["call"] in ("instance", "replicate"):
+            return "%s(platform=%s%s)" % (step["call"], plat, flags)
+        if step["call"] == "query":
+            return "get_component_configuration(%r, platform=%s%s)" % (tuple(step["comp"]), plat, flags)
+        return "get_component_variables(%r, platform=%s)" % (tuple(step["comp"]), plat)
+    k, n, v = step["kind"], step["name"], step["value"]
     if k == "dg":
         return "set_global_variable(%r, %r)" % (n, v)
     if k == "ds":
@@ -366,10 +379,50 @@ def apply_to_live(live, step):
         live.set_component_variable(tuple(step["comp"]), n, v)
 
 
+def apply_readonly(live, step):
+    """Operations that only read the description; whatever they return is dropped."""
+    plat = step.get("platform") if step.get("explicit", True) else None
+    flags = step.get("flags") or {}
+    call = step["call"]
+    if call == "raw":
+        live.raw()
+    elif call == "instance":
+        live.instance(platform=plat, **flags)
+    elif call == "replicate":
+        live.replicate(platform=plat, **flags)
+    elif call == "query":
+        live.get_component_configuration(tuple(step["comp"]), platform=plat, **flags)
+    else:
+        live.get_component_variables(tuple(step["comp"]), platform=plat)
+
+
+def references_in(obj):
+    """Names of the variables referenced anywhere inside a (nested) option dictionary."""
+    out = set()
+    if isinstance(obj, dict):
+        for v in obj.values():
+            out |= references_in(v)
+    elif isinstance(obj, list):
+        for v in obj:
+            out |= references_in(v)
+    elif isinstance(obj, str):
+        out |= set(ref.REF.findall(obj))
+    return out
+
+
+def stage_blueprint(doc, platform, stage):
+    return (((doc.get("blueprint") or {}).get(platform) or {}).get("stages") or {}).get(stage) or {}
+
+
+PODSPEC = ("resourceManager", "kubernetes", "podSpec")
+
+
 def section_relation(step, comp_id, platform):
     """Which section an update wrote to, relative to the (component, platform) pair that is read."""
     if step["op"] == "user":
         return "user"
+    if step["op"] == "ro":
+        return "readonly"
     if step["kind"] == "comp":
         return "component_own" if tuple(step["comp"]) == tuple(comp_id) else "component_other"
     target = step.get("platform", "default") if step["kind"] in ("pg", "ps") else "default"
@@ -392,9 +445,21 @@ def run_history(hist, w, scratch):
     live = FlowIRConcrete(copy.deepcopy(doc), active, None)
     user_applied = None
     previous = {}        # pair -> expected outcome at its previous query
-    since = {}           # pair -> updates since its previous query
-    last_update = None
+    all_ups = []         # every step so far that is not a query
+    mark = {}            # pair -> len(all_ups) at its previous query
+    queried_comps = []   # components queried so far (any platform), in order
     queried = False
+    stages = sorted(set(c["stage"] for c in doc["components"]))
+    if any(references_in(stage_blueprint(doc, p, s)) for p in doc["platforms"] for s in stages):
+        w.count("update_histories_stage_blueprint_with_variable_reference")
+    if any(isinstance(ref.get_path(stage_blueprint(doc, p, s), PODSPEC)[1], dict)
+           for p in doc["platforms"] for s in stages):
+        w.count("update_histories_dict_valued_stage_blueprint_option")
+    first = [st for st in steps if st["op"] != "user"][0]
+    if first["op"] == "ro":
+        w.count("update_histories_readonly_before_first_query")
+    if any(st["op"] == "ro" and st["call"] in ("instance", "replicate") for st in steps):
+        w.count("update_histories_with_instance_or_replicate")
     ok = True
     for k, step in enumerate(steps):
         if step["op"] == "user":
@@ -419,10 +484,14 @@ def run_history(hist, w, scratch):
             apply_to_document(tracked, step)
             w.count("update_ops_applied")
             w.count("update_ops_" + step["kind"])
+        elif step["op"] == "ro":
+            try:
+                apply_readonly(live, step)
+                w.count("update_readonly_" + step["call"])
+            except Exception as e:  # not the observation point of this property: only the queries are judged
+                w.count("update_readonly_%s_raised_%s" % (step["call"], type(e).__name__))
         if step["op"] != "read":
-            last_update = (k, step)
-            for key in previous:
-                since.setdefault(key, []).append(step)
+            all_ups.append(step)
             continue
 
         for pr in step["pairs"]:
@@ -444,7 +513,45 @@ def run_history(hist, w, scratch):
             w.evaluated()
             w.count("update_reads")
             now = json.dumps(vlib.jsonable([status, exp]), sort_keys=True, default=str)
-            ups = since.get(key, [])
+            ups = recent = all_ups[mark.get(key, 0):]
+            sets = [u for u in ups if u["op"] != "ro"]
+            ros = [u for u in ups if u["op"] == "ro"]
+            if ros:
+                w.count("update_reads_after_readonly")
+                if not sets:
+                    w.count("update_reads_after_readonly_only")
+                inst = [u for u in ros if u["call"] in ("instance", "replicate")]
+                defined_above = set(comp_dict.get("variables") or {}) | set(
+                    ((comp_dict.get("override") or {}).get(platform) or {}).get("variables") or {})
+                if user_applied:
+                    defined_above |= set(user_applied.get("global") or {}) | set(
+                        (user_applied.get("stages") or {}).get(comp_id[0]) or {})
+                if inst:
+                    w.count("update_reads_after_instance")
+                    if any(u["platform"] != platform and stage_blueprint(tracked, u["platform"], comp_id[0])
+                           for u in inst):
+                        w.count("update_reads_after_instance_of_other_platform_with_stage_blueprint")
+                    if (references_in(stage_blueprint(tracked, "default", comp_id[0])) |
+                            references_in(stage_blueprint(tracked, platform, comp_id[0]))) & defined_above:
+                        w.count("update_reads_after_instance_stage_blueprint_reference_redefined_above")
+                for u in ros:
+                    w.distinct("R:%s:%s:%s:%s:%d" % (
+                        u["call"], ",".join("%s=%s" % kv for kv in sorted((u.get("flags") or {}).items())),
+                        "same" if u.get("platform") == platform else "other", status, platform == "default"))
+            sb_dict = [p for p in ("default", platform)
+                       if isinstance(ref.get_path(stage_blueprint(tracked, p, comp_id[0]), PODSPEC)[1], dict)]
+            above_dict = isinstance(ref.get_path(comp_dict, PODSPEC)[1], dict) or isinstance(
+                ref.get_path((comp_dict.get("override") or {}).get(platform) or {}, PODSPEC)[1], dict)
+            if sb_dict:
+                w.count("update_reads_dict_option_from_stage_blueprint")
+                if above_dict:
+                    w.count("update_reads_dict_option_of_stage_blueprint_merged_with_higher_layer")
+                if any(c[0] == comp_id[0] and c != comp_id and isinstance(ref.get_path(
+                        [d for d in tracked["components"] if (d["stage"], d["name"]) == c][0], PODSPEC)[1], dict)
+                       for c in queried_comps):
+                    w.count("update_reads_dict_option_of_stage_blueprint_after_sibling_with_own_dict")
+            queried_comps.append(comp_id)
+            ups = sets
             if key in previous and ups:
                 changed = now != previous[key]
                 w.count("update_reads_after_update")
@@ -457,15 +564,18 @@ def run_history(hist, w, scratch):
                     w.distinct("U:%s:%s:%d:%s:%d" % (u.get("kind", "user"), section_relation(u, comp_id, platform),
                                                      changed, status, platform == "default"))
             previous[key] = now
-            since[key] = []
-            pre = "update slice: "
-            if last_update is not None:
-                pre = "update slice, after %s (step %d, active platform %r): " % (
-                    describe_step(last_update[1]), last_update[0], active)
+            mark[key] = len(all_ups)
+            pre = "update slice, first query of the object: "
+            if queried_comps[:-1] and not recent:
+                pre = "update slice, after only queries of %d other (component, platform) pairs on the same object " \
+                      "(query step %d, active platform %r): " % (len(queried_comps) - 1, k, active)
+            if recent:
+                pre = "update slice, after %s%s (query step %d, active platform %r): " % (
+                    "... ; " if len(recent) > 3 else "", " ; ".join(describe_step(u) for u in recent[-3:]), k, active)
             witness = {"history": {"doc": hist["doc"], "user": hist.get("user"), "active": active,
                                    "steps": hist["steps"][:k + 1]},
                        "comp": list(comp_id), "platform": platform, "step": k,
-                       "updates_since_previous_query_of_this_pair": [describe_step(u) for u in ups],
+                       "operations_since_previous_query_of_this_pair": [describe_step(u) for u in recent],
                        "expected": {"status": status, "value": exp if status != "ok" else None},
                        "observed": obs if ostatus == "raised" else None}
             if not judge(w, witness, comp_id, platform, comp_dict, status, exp, info, ostatus, obs,
@@ -528,7 +638,8 @@ def main():
              "default one) triples reached by the random configurations + one entry per (leaf, presence pattern, "
              "platform) of the exhaustive lattice slice + (update kind, section written relative to the queried "
              "pair, expected outcome changed?, expected status, queried platform is default?) classes of the "
-             "update histories",
+             "update histories + (read-only operation, its flags, same / other platform than the queried one, "
+             "expected status, queried platform is default?) classes",
         assumptions=[
             "the built-in defaults layer is taken from FlowIR.default_component_structure() of the tree under test",
             "option values have an unambiguous reading for their declared type (ints/decimal strings for int and "
@@ -547,6 +658,13 @@ def main():
             "nothing); after the user variable file has been applied no setter touches a name that the file "
             "defines (except set_component_variable, which outranks the user layer), because the file is stored "
             "in the platform stage sections; set_stage_variable is only used for stages the default section has",
+            "update histories: instance(), replicate(), raw(), get_component_configuration() and "
+            "get_component_variables() are taken to leave the description unchanged (the tracked document is not "
+            "touched by them); their own results and exceptions are not judged (observe_at is the resolved "
+            "configuration query), only the queries that follow",
+            "the dict-valued option that is varied is resourceManager.kubernetes.podSpec (dictionaries merge key by "
+            "key across the layers, string values inside are substituted); its values only reference variables that "
+            "default.global defines",
         ])
     c.max_samples = 3
     rp = vlib.load_replay(sys.argv)
@@ -575,7 +693,11 @@ def main():
                 "(component, platform) pairs, change one variable of one layer through the public setters "
                 "(set_global_variable, set_stage_variable, set_platform_global_variable, set_platform_stage_variable "
                 "for every platform section incl. the default one and platform=None, set_component_variable) or apply "
-                "the user variable file to the already queried object, query again; every query is judged against "
+                "the user variable file to the already queried object, or run operations that only read the "
+                "description (instance()/replicate() with the loader's flag combinations and the defaults, raw(), "
+                "get_component_configuration() with other flags, get_component_variables()), query again; documents "
+                "have stage blueprints with variable references and a dict-valued option (kubernetes.podSpec) in "
+                "stage blueprints / global blueprints / components / overrides; every query is judged against "
                 "the reference layering of the description as it stands at that moment",
         "histories": c.counters.get("update_histories", 0),
         "example_history_0": {"active": h0["active"], "steps": [
@@ -602,6 +724,19 @@ def main():
         c.floor("update_changed_by_" + rel, 40 * k)
     c.floor("update_changed_by_user", 12 * k)
     c.floor("update_unchanged_by_section_of_foreign_platform", 40 * k)
+    # read-only operations between the queries (round 4)
+    c.floor("update_histories_readonly_before_first_query", 40 * k)
+    c.floor("update_histories_with_instance_or_replicate", 100 * k)
+    c.floor("update_histories_stage_blueprint_with_variable_reference", 100 * k)
+    c.floor("update_histories_dict_valued_stage_blueprint_option", 60 * k)
+    c.floor("update_readonly_instance", 100 * k)
+    c.floor("update_readonly_replicate", 60 * k)
+    c.floor("update_reads_after_readonly", 1500 * k)
+    c.floor("update_reads_after_readonly_only", 600 * k)
+    c.floor("update_reads_after_instance_of_other_platform_with_stage_blueprint", 500 * k)
+    c.floor("update_reads_after_instance_stage_blueprint_reference_redefined_above", 500 * k)
+    c.floor("update_reads_dict_option_of_stage_blueprint_merged_with_higher_layer", 500 * k)
+    c.floor("update_reads_dict_option_of_stage_blueprint_after_sibling_with_own_dict", 300 * k)
     for lname in ("dg", "ds", "pg", "ps", "comp", "ovr"):
         c.floor("option_winner_" + lname, 100)
     for lname in ("dg", "ds", "pg", "ps", "user", "comp", "ovr"):
